@@ -4,7 +4,7 @@ of the earlier seeded changes of that property (so the new ones use other mechan
 import json, os, sys, glob
 V = os.path.dirname(os.path.dirname(os.path.abspath(__file__)))
 wave = sys.argv[1]
-tmpl = open(os.path.join(V, '.prompts/mutant2.txt')).read()
+tmpl = open(os.path.join(V, '.prompts/mutant3.txt')).read()
 os.makedirs(os.path.join(V, f'.prompts/mut{wave}'), exist_ok=True)
 for line in open(os.path.join(V, 'properties.jsonl')):
     p = json.loads(line)
